@@ -139,7 +139,7 @@ func DecodeSenc(hdr BoxHeader, startPos uint64, r io.Reader) (Box, error) {
 		StartPos:         startPos,
 		SampleCount:      sampleCount,
 		readButNotParsed: true,
-		readBoxSize:      hdr.Size,
+		readBoxSize:      boxHeaderSize + uint64(hdr.payloadLen()), // written with a compact header
 	}
 
 	if flags&UseSubSampleEncryption != 0 && (len(senc.rawData) < 2*int(sampleCount)) {
@@ -172,7 +172,7 @@ func DecodeSencSR(hdr BoxHeader, startPos uint64, sr bits.SliceReader) (Box, err
 	flags := versionAndFlags & flagsMask
 	sampleCount := sr.ReadUint32()
 
-	if flags&UseSubSampleEncryption != 0 && ((hdr.Size - 16) < 2*uint64(sampleCount)) {
+	if flags&UseSubSampleEncryption != 0 && (uint64(hdr.payloadLen()-8) < 2*uint64(sampleCount)) {
 		return nil, fmt.Errorf("box size %d too small for %d samples and subSampleEncryption",
 			hdr.Size, sampleCount)
 	}
@@ -184,7 +184,7 @@ func DecodeSencSR(hdr BoxHeader, startPos uint64, sr bits.SliceReader) (Box, err
 		StartPos:         startPos,
 		SampleCount:      sampleCount,
 		readButNotParsed: true,
-		readBoxSize:      hdr.Size,
+		readBoxSize:      boxHeaderSize + uint64(hdr.payloadLen()), // written with a compact header
 	}
 
 	if senc.SampleCount == 0 || len(senc.rawData) == 0 {
